@@ -747,6 +747,13 @@ type UploadStream struct {
 }
 
 func newUploadStream(ctx context.Context, bucket *Bucket, id interface{}, name string, chunkSize int, metadata interface{}) *UploadStream {
+	// the buffer must hold at least one chunk, otherwise a full buffer could
+	// never be flushed and Write would not make progress
+	bufferSize := gridfs.UploadBufferSize
+	if chunkSize > bufferSize {
+		bufferSize = chunkSize
+	}
+
 	return &UploadStream{
 		context:   ctx,
 		bucket:    bucket,
@@ -754,7 +761,7 @@ func newUploadStream(ctx context.Context, bucket *Bucket, id interface{}, name s
 		name:      name,
 		metadata:  metadata,
 		chunkSize: chunkSize,
-		buffer:    make([]byte, gridfs.UploadBufferSize),
+		buffer:    make([]byte, bufferSize),
 	}
 }
 
